@@ -317,6 +317,14 @@ def tie_filter_line(chk, maxlen):
             chk.count(None)
             if got != rep[k] and len(chk.disagreements) < 3:
                 chk.disagree(dict(kind="filter_line", line=l, P=P, G=G), got, rep[k], where="filter_line: implementation vs model")
+            # SPEC on the implementation's answer (theorem C12_filter_decides_by_rule: the alphabet has no bracket, so the
+            # loader's fields are the comma-separated pieces, trimmed): a line is skipped iff its rule is not kept
+            fields = [x.strip() for x in l.split(",")]
+            want = int(not py_rule_kept(P, G, fields[0], fields[1:]))
+            if got != want and not any(c.get("case", {}).get("kind") == "filter_line" for c in chk.spec_failures):
+                chk.spec_fail(dict(kind="filter_line", line=l, P=P, G=G), dict(filter_line_skips=got), dict(filter_line_skips=want),
+                              "filter_line skips / keeps a line against the rule the loader reads from it (fields " +
+                              repr(fields[1:]) + " of policy type " + repr(fields[0]) + ")")
             k += 1
     chk.extra.setdefault("strata", {})["exhaustive_filter_line"] = len(reqs)
     idx = chk.rng.sample(range(len(reqs)), 60)
@@ -827,6 +835,17 @@ def replay(chk):
         if chk.disagreements:
             print(f"  {chk.disagreements[0]['where']}")
             print(f"VIOLATION property={PROP} replay={chk.replay_file} no-failing-input-found")
+            sys.exit(1)
+        print("replay passes: implementation agrees with the spec on this input")
+        sys.exit(0)
+    if c.get("kind") == "filter_line":
+        l, P, G = c["line"], c["P"], c["G"]
+        got = int(bool(filter_line(l, [P, G])))
+        fields = [x.strip() for x in l.split(",")]
+        want = int(not py_rule_kept(P, G, fields[0], fields[1:]))
+        print(f"replay: filter_line({l!r}, P={P!r}, G={G!r}) skips={got}; the rule the loader reads ({fields}) is kept={1 - want}")
+        if got != want:
+            print(f"VIOLATION property={PROP} replay={chk.replay_file}")
             sys.exit(1)
         print("replay passes: implementation agrees with the spec on this input")
         sys.exit(0)
